@@ -14,7 +14,10 @@ use std::collections::{HashMap, HashSet};
 /// See https://spec.graphql.org/draft/#sec-All-Variable-Uses-Defined
 pub struct NoUndefinedVariables<'a> {
     current_scope: Option<NoUndefinedVariablesScope<'a>>,
-    defined_variables: HashMap<Option<&'a str>, HashSet<&'a str>>,
+    /// keyed by the operation's index in the document and its name: operations that share a
+    /// name (or are both anonymous) must not share a table
+    defined_variables: HashMap<(usize, Option<&'a str>), HashSet<&'a str>>,
+    operations_seen: usize,
     used_variables: HashMap<NoUndefinedVariablesScope<'a>, Vec<&'a str>>,
     spreads: HashMap<NoUndefinedVariablesScope<'a>, Vec<&'a str>>,
 }
@@ -30,6 +33,7 @@ impl<'a> NoUndefinedVariables<'a> {
         Self {
             current_scope: None,
             defined_variables: HashMap::new(),
+            operations_seen: 0,
             used_variables: HashMap::new(),
             spreads: HashMap::new(),
         }
@@ -73,7 +77,7 @@ impl<'a> NoUndefinedVariables<'a> {
 
 #[derive(Debug, Clone, PartialEq, Eq, Hash)]
 pub enum NoUndefinedVariablesScope<'a> {
-    Operation(Option<&'a str>),
+    Operation(usize, Option<&'a str>),
     Fragment(&'a str),
 }
 
@@ -85,8 +89,11 @@ impl<'a> OperationVisitor<'a, ValidationErrorContext> for NoUndefinedVariables<'
         operation_definition: &'a OperationDefinition,
     ) {
         let op_name = operation_definition.node_name();
-        self.current_scope = Some(NoUndefinedVariablesScope::Operation(op_name));
-        self.defined_variables.insert(op_name, HashSet::new());
+        let op_index = self.operations_seen;
+        self.operations_seen += 1;
+        self.current_scope = Some(NoUndefinedVariablesScope::Operation(op_index, op_name));
+        self.defined_variables
+            .insert((op_index, op_name), HashSet::new());
     }
 
     fn enter_fragment_definition(
@@ -120,8 +127,8 @@ impl<'a> OperationVisitor<'a, ValidationErrorContext> for NoUndefinedVariables<'
         _: &mut ValidationErrorContext,
         variable_definition: &'a query::VariableDefinition,
     ) {
-        if let Some(NoUndefinedVariablesScope::Operation(ref name)) = self.current_scope {
-            if let Some(vars) = self.defined_variables.get_mut(name) {
+        if let Some(NoUndefinedVariablesScope::Operation(index, name)) = self.current_scope {
+            if let Some(vars) = self.defined_variables.get_mut(&(index, name)) {
                 vars.insert(&variable_definition.name);
             }
         }
@@ -147,12 +154,12 @@ impl<'a> OperationVisitor<'a, ValidationErrorContext> for NoUndefinedVariables<'
         user_context: &mut ValidationErrorContext,
         _: &query::Document,
     ) {
-        for (op_name, def_vars) in &self.defined_variables {
+        for ((op_index, op_name), def_vars) in &self.defined_variables {
             let mut unused = HashSet::new();
             let mut visited = HashSet::new();
 
             self.find_undefined_vars(
-                &NoUndefinedVariablesScope::Operation(*op_name),
+                &NoUndefinedVariablesScope::Operation(*op_index, *op_name),
                 def_vars,
                 &mut unused,
                 &mut visited,
